@@ -97,6 +97,9 @@ def cases(tier, seed):
         for spec in workload.lattice_cases(seed * 31 + rep, opts_fn=opts):
             spec["kind"] = "run"
             out.append(spec)
+    # one process, several naming maps over the same bundled parameter file: plain, user names file, plain again
+    nh = 18 if tier == "quick" else 1200
+    out += [{"kind": "namestable", "seed": seed * 9901 + i, "base": common.FFS[i % 6]} for i in range(nh)]
     nu = 16 if tier == "quick" else 1500
     for i in range(nu):
         out.append({"kind": "userrun", "w": "synth", "seed": seed * 7333 + i, "ff": "USER",
@@ -163,6 +166,62 @@ def run_table(spec, res):
             res.nt("usertable", spec["base"], tuple(sorted({x[0] for x in notes})))
             res.count("user_tables")
             res.sample = {"kind": "usertable", "base": spec["base"], "notes": notes[:6], "entries": n}
+    finally:
+        common.wipe(d)
+
+
+def run_namestable(spec, res):
+    """History at table level: Forcefield(X), Forcefield(X, usernames=U1), Forcefield(X, usernames=U2), Forcefield(X)
+    built in this order in one process; each must equal the model built from the bundled X.DAT and *its own* names."""
+    from pdb2pqr import forcefield
+    from pdb2pqr import io as pio
+    import os
+    import tempfile
+    definition = pio.get_definitions()
+    rng = random.Random(spec["seed"])
+    base = spec["base"]
+    dat = (common.REPO / "pdb2pqr" / "dat" / f"{base}.DAT").read_text(encoding="utf-8")
+    d = tempfile.mkdtemp(dir=str(common.workdir("c01")))
+    try:
+        steps = [("plain", None, [])]
+        for k in range(rng.randint(1, 2)):
+            names, notes = ffgen.make_names_variant(rng, base)
+            steps.append((f"user{k}", names, notes))
+        steps.append(("plain-again", None, []))
+        if rng.random() < 0.5:
+            steps = steps[1:]      # start with a user map: nothing was parsed before it in this history
+        history = []
+        for tag, names, notes in steps:
+            path = None
+            if names is not None:
+                path = os.path.join(d, f"{tag}.names")
+                open(path, "w").write(names)
+            try:
+                model = ffmap.builtin(base) if names is None else ffmap.build(dat, names)
+                model_err = None
+            except Exception as e:  # noqa: BLE001
+                model, model_err = None, e
+            try:
+                real = forcefield.Forcefield(base.lower(), definition, None, path)
+                real_err = None
+            except Exception as e:  # noqa: BLE001
+                real, real_err = None, e
+            wit = {"base": base, "step": tag, "history": list(history), "notes": notes, "seed": spec["seed"]}
+            history.append(tag)
+            if (model_err is None) != (real_err is None):
+                res.violate("table/names-history/one-side-fails", f"model error {model_err!r} vs real error {real_err!r}", **wit)
+                continue
+            if model is None:
+                continue
+            before = len(res.violations)
+            compare_tables(res, real.map, model, "names-history", wit)
+            res.count("names_history_tables")
+            if names is not None:
+                res.count("user_names_tables")
+            res.nt("namestable", base, tag, tuple(sorted({x[0] for x in notes})))
+            if len(res.violations) > before:
+                break
+        res.sample = {"kind": "namestable", "base": base, "steps": [t for t, _n, _x in steps]}
     finally:
         common.wipe(d)
 
@@ -289,7 +348,9 @@ def setup_worker():
 
 def run_case(spec):
     res = Res()
-    if spec["kind"] in ("table", "usertable"):
+    if spec["kind"] == "namestable":
+        run_namestable(spec, res)
+    elif spec["kind"] in ("table", "usertable"):
         run_table(spec, res)
     else:
         run_run(spec, res)
